@@ -139,6 +139,11 @@ def forms():
         "rspfile = top.rsp\nrspfile_content = c\nrule s\n  command = s $rspfile $depfile\nbuild a: s x\n",
         "rspfile_content = c\nrule s\n  command = s\n  rspfile = own.rsp\nbuild a: s x\n",
         "command = filecmd\nrule s\n  description = d\nbuild a: s x\n",
+        # a rule-level binding with an EMPTY value is a binding: it shadows the file-level variable of that name
+        "description = FILE-DESC\ndepfile = file.d\nrule s\n  command = c [$description] [$depfile]\n  description =\n  depfile =\nbuild a: s x\n",
+        "pool = p\nrestat = 1\ngenerator = 1\ndeps = gcc\nrule s\n  command = c\n  pool =\n  restat =\n  generator =\n  deps =\nbuild a: s x\n",
+        "rspfile = f.rsp\nrspfile_content = fc\nrule s\n  command = c $rspfile\n  rspfile =\n  rspfile_content =\nbuild a: s x\n",
+        "v = file\nrule s\n  command = c $v\nbuild a: s x\n  v =\n",
         # a rule-level pool / dyndep binding that uses $out / $in is expanded in the build's scope like any rule variable
         "pool p_a\n  depth = 1\nrule s\n  command = c $pool\n  pool = p_$out\nbuild a: s x\n",
         "pool p_x\n  depth = 1\npool p_\n  depth = 3\nrule s\n  command = c $pool\n  pool = p_$in\nbuild a: s x\n",
